@@ -165,6 +165,62 @@ func streamMac(c *ctx) {
 			}
 		}
 	}
+	// one MACer object over a history of messages (lengths with falling and rising residues mod the block size,
+	// creations and verifications interleaved): every answer is the one a fresh object gives, inputs are left untouched
+	for _, alg := range algs {
+		k := c.r.bytes(symKeySize[alg])
+		m, err := macer(alg, k)
+		if err != nil {
+			continue
+		}
+		hl := []int{31, 15, 7, 1, 40, 17, 16, 5, 33, 3, 64, 63, 2, 47, 46, 13}
+		for j := c.n(6, 40); j > 0; j-- {
+			hl = append(hl, 1+c.r.intn(70))
+		}
+		ctor := "MHmac"
+		if alg > 7 {
+			ctor = "MAesMac"
+		}
+		hist := ""
+		for step, l := range hl {
+			msg := c.r.bytes(l)
+			for i := range msg {
+				msg[i] |= 1 // no zero bytes: stale state of an earlier call cannot hide behind the padding
+			}
+			orig := append([]byte{}, msg...)
+			hist += fmt.Sprintf(" %d", l)
+			line := fmt.Sprintf("mac-history|alg=%d|key=%x|lengths so far:%s|msg=%x", alg, k, hist, orig)
+			var tag []byte
+			var cerr error
+			p, pm := catch(func() { tag, cerr = m.MACCreate(msg) })
+			if p {
+				c.fail(failure{Op: "mac-history", What: "MACCreate panics on a reused MACer", Input: line, Observed: "panic: " + pm, Expected: "tag", Case: line})
+				break
+			}
+			c.addCase(fmt.Sprintf("%s %d %s %s %s %s", ctor, alg, qHex(k), qHex(orig), qB(cerr == nil), qHex(tag)), line+fmt.Sprintf(" => ok=%v tag=%x", cerr == nil, tag))
+			fresh, _ := macer(alg, k)
+			ftag, ferr := fresh.MACCreate(orig)
+			if (cerr == nil) != (ferr == nil) || string(tag) != string(ftag) {
+				c.fail(failure{Op: "mac-history", What: "a MACer used before gives another tag than a fresh MACer of the same key", Input: line, Observed: fmt.Sprintf("%x err=%v", tag, cerr), Expected: fmt.Sprintf("%x err=%v", ftag, ferr), Case: line, Theorem: "C11_aesmac_is_cbcmac"})
+			}
+			if string(msg) != string(orig) {
+				c.fail(failure{Op: "mac-history", What: "MACCreate changed the caller's data", Input: line, Observed: hx(msg), Expected: hx(orig), Case: line})
+			}
+			if cerr == nil && step%2 == 0 {
+				verr := m.MACVerify(msg, ftag)
+				c.eval()
+				if verr != nil {
+					c.fail(failure{Op: "mac-history", What: "a MACer used before refuses the correct tag", Input: line, Observed: verr.Error(), Expected: "accepted", Case: line, Theorem: "C11_verify_exact"})
+				}
+				// a message that continues with other bytes has another tag
+				longer := append(append([]byte{}, orig...), 0x55)
+				if m.MACVerify(longer, ftag) == nil {
+					c.fail(failure{Op: "mac-history", What: "tag accepted for other data on a reused MACer", Input: line, Observed: "accepted", Expected: "rejected", Case: line, Theorem: "C11_verify_exact"})
+				}
+			}
+			c.nontriv(fmt.Sprintf("history|%d|%d|%d", alg, step, l%16))
+		}
+	}
 	// wrong key sizes are refused by every factory
 	for _, alg := range algs {
 		for l := 0; l <= 65; l++ {
